@@ -27,6 +27,13 @@ def report(ctx: Ctx, sa: SiteAnalysis, cats: dict[str, str], site_cats: dict[str
     """cats: outcome category -> rule name;  site_cats: site-level category -> rule name."""
     for fn in sa.hooks.all_hook_functions():
         ctx.fn(f"_hooks.py:{fn.hook_name}")
+    for site, handler, alt, issues in sa.imprecise:
+        rel = [(c, m) for c, m in issues if c in cats]
+        if rel:
+            from ..common import AnalysisError
+            raise AnalysisError(f"{handler} decides with a test on the whole value (key set / size); the analysis cannot "
+                                f"tell which branch a valid {show(alt)} takes, so `{rel[0][0]}` is undetermined for "
+                                f"{show(site.ty)} (C15 reports the test itself)")
     by_site: dict = {}
     for s, cat, msg in sa.site_issues:
         by_site.setdefault(id(s), []).append((cat, msg))
